@@ -2,7 +2,7 @@
 import json, os, re
 from .callgraph import callee_name
 from .cfg import cfg_of
-from .dataflow import du_of, place_key, val_ref_target, fmt_place
+from .dataflow import is_view_call, du_of, place_key, val_ref_target, fmt_place
 from .guards import guards_of, optres_root, const_int, len_of, strip_casts
 
 UNWRAP = {
@@ -166,6 +166,20 @@ class Inventory:
         if ok:
             s.status, s.reason = "guarded", "dominated by a passed is_ok/is_err/is_some/is_none (or match) test of %s" % fmt_place(fn, root)
             return
+        # value produced by a callee whose failure depends on the server's environment only (reviewed table), wherever the site is
+        pv = du.val_place(du.canon(root))
+        if pv[0] == "call" and pv[1]:
+            for pat, why in self.exempt.get("environment_producers", []):
+                if pv[1] == pat:
+                    s.status, s.reason = "exempt", why
+                    return
+                if pv[1] in ("std::path::Path::to_str", "std::ffi::OsStr::to_str", "std::path::PathBuf::to_str") and _mentions_call(du, pv, pat):
+                    s.status, s.reason = "exempt", "to_str of a path that comes from %s: fails only for a non-UTF-8 directory name (server environment)" % pat
+                    return
+            # URL::parse of 'scheme://authority' + anything: the dependency's parser has no Err exit for such a string
+            if pv[1] in ("url::URL::parse", "url_build_parse::parse_url") and pv[2] and _has_scheme_and_authority(du, pv[2][0]):
+                s.status, s.reason = "guarded", "the parsed text is a join that starts with the constants 'http://' + a non-empty authority: parse_url has no reachable Err exit for it (its own panics are separate sites)"
+                return
         # Option produced by slice::get(const i) / first / last: guarded by a length bound
         c = du.canon(root)
         if not c[1]:
@@ -553,6 +567,46 @@ def _is_count(du, v, depth=0):
             return True
         if n.endswith("::unwrap") and v[2]:
             return _is_count_result(du, v[2][0])
+    return False
+
+
+def _mentions_call(du, v, name, depth=0):
+    """the value derives (through calls, views, references to single-definition locals) from a call to `name`"""
+    if depth > 12:
+        return False
+    if v[0] == "call":
+        if v[1] == name:
+            return True
+        return any(_mentions_call(du, a, name, depth + 1) for a in v[2])
+    if v[0] in ("cast", "unop"):
+        return _mentions_call(du, v[2], name, depth + 1)
+    if v[0] == "ref":
+        inner = du.val_place(v[1])
+        if inner != ("place", v[1]) and inner[0] != "ref":
+            return _mentions_call(du, inner, name, depth + 1)
+    return False
+
+
+def _has_scheme_and_authority(du, v, depth=0):
+    """v is (a reference to) `[c0, c1, ...].join("")` / concat with c0 a constant 'scheme://' and c1 a non-empty constant authority"""
+    if depth > 6:
+        return False
+    if v[0] == "ref":
+        return _has_scheme_and_authority(du, du.val_place(v[1]), depth + 1)
+    if v[0] == "call" and v[1] and is_view_call(v[1]) and v[2]:
+        return _has_scheme_and_authority(du, v[2][0], depth + 1)
+    if v[0] == "call" and v[1] in ("std::slice::<impl [T]>::join", "std::slice::<impl [T]>::concat") and v[2]:
+        if v[1].endswith("join") and not (len(v[2]) == 2 and v[2][1][0] == "const" and v[2][1][1] == ""):
+            return False
+        arr = v[2][0]
+        while arr[0] == "cast":
+            arr = arr[2]
+        if arr[0] == "ref":
+            arr = du.val_place(arr[1])
+        if arr[0] == "aggregate" and len(arr[3]) >= 2:
+            c0, c1 = arr[3][0], arr[3][1]
+            if c0[0] == "const" and isinstance(c0[1], str) and re.fullmatch(r"[a-z][a-z0-9+.-]*://", c0[1]) and c1[0] == "const" and isinstance(c1[1], str) and re.fullmatch(r"[A-Za-z0-9.-]+", c1[1]):
+                return True
     return False
 
 
